@@ -193,7 +193,7 @@ def slice_(val: Any, start: Any, length: Any = 1) -> str | list[object]:
         length = 1
 
     _start = _slice_arg(start)
-    _length = _slice_arg(length)
+    _length = max(_slice_arg(length), 0)
     end: int | None = _start + _length
 
     # A negative start index and a length that exceeds the theoretical length
